@@ -146,6 +146,36 @@ func (c *Ctx) exprDesc1(v ssa.Value, depth int) string {
 		return x.Op.String() + c.exprDesc1(x.X, d)
 	case *ssa.FieldAddr:
 		st := ir.StructOf(x.X.Type())
+		// a struct value spilled to a local (a by-value parameter after helper expansion, a
+		// range element copy): the field of the value that was stored
+		if a, ok := x.X.(*ssa.Alloc); ok && a.Referrers() != nil {
+			var whole []ssa.Value
+			only := true
+			for _, ref := range *a.Referrers() {
+				switch y := ref.(type) {
+				case *ssa.Store:
+					if y.Addr == ssa.Value(a) {
+						whole = append(whole, y.Val)
+					} else {
+						only = false
+					}
+				case *ssa.FieldAddr:
+					if y.Referrers() != nil {
+						for _, r2 := range *y.Referrers() {
+							if s2, isStore := r2.(*ssa.Store); isStore && s2.Addr == ssa.Value(y) {
+								only = false
+							}
+						}
+					}
+				case *ssa.UnOp, *ssa.DebugRef:
+				default:
+					only = false
+				}
+			}
+			if only && len(whole) == 1 {
+				return c.exprDesc1(whole[0], d) + "." + st.Field(x.Field).Name()
+			}
+		}
 		return c.exprDesc1(x.X, d) + "." + st.Field(x.Field).Name()
 	case *ssa.Field:
 		st := ir.StructOf(x.X.Type())
